@@ -829,6 +829,33 @@ func cvPtArg(tok string) *curve.EdwardsPoint {
 	return nil
 }
 
+// cvExpanded presents P as an ExpandedEdwardsPoint.  Depending on a bit of the (request-determined) token `sel` the value
+// is either fresh, or a by-value copy taken from a working variable that is afterwards re-targeted to another point
+// (expanded points are values: a copy must keep denoting P whatever happens to the variable it was copied from), or a
+// variable that held another point first.
+func cvExpanded(P *curve.EdwardsPoint, sel string) *curve.ExpandedEdwardsPoint {
+	mode := 0
+	if len(sel) > 0 {
+		mode = int(sel[len(sel)-1]) % 3
+	}
+	switch mode {
+	case 1:
+		work := curve.NewExpandedEdwardsPoint(P)
+		snap := *work
+		var other curve.EdwardsPoint
+		other.Add(P, curve.ED25519_BASEPOINT_POINT)
+		work.SetEdwardsPoint(&other)
+		return &snap
+	case 2:
+		var other curve.EdwardsPoint
+		other.Add(P, curve.ED25519_BASEPOINT_POINT)
+		work := curve.NewExpandedEdwardsPoint(&other)
+		work.SetEdwardsPoint(P)
+		return work
+	}
+	return curve.NewExpandedEdwardsPoint(P)
+}
+
 func cvScArg(tok string) *scalar.Scalar {
 	s, err := scalar.NewFromBits(unhex(tok))
 	if err != nil {
@@ -971,7 +998,7 @@ func execG1(op string, a []string) string {
 			al := cvCopy(A)
 			return cvBoth(cvRecv().DoubleScalarMulBasepointVartime(x, A, y), al.DoubleScalarMulBasepointVartime(x, al, y))
 		}
-		return cvBoth(cvRecv().ExpandedDoubleScalarMulBasepointVartime(x, curve.NewExpandedEdwardsPoint(A), y), nil)
+		return cvBoth(cvRecv().ExpandedDoubleScalarMulBasepointVartime(x, cvExpanded(A, a[0]), y), nil)
 	case "tsm", "xtsm":
 		x, A, y, C := cvScArg(a[0]), cvPtArg(a[1]), cvScArg(a[2]), cvPtArg(a[3])
 		if x == nil || A == nil || y == nil || C == nil {
@@ -981,7 +1008,7 @@ func execG1(op string, a []string) string {
 		if op == "tsm" {
 			r.TripleScalarMulBasepointVartime(x, A, y, C)
 		} else {
-			r.ExpandedTripleScalarMulBasepointVartime(x, curve.NewExpandedEdwardsPoint(A), y, C)
+			r.ExpandedTripleScalarMulBasepointVartime(x, cvExpanded(A, a[0]), y, C)
 		}
 		return b2s(r.IsSmallOrder())
 	case "msm", "msmvt":
@@ -1016,8 +1043,8 @@ func execG1(op string, a []string) string {
 			return "err"
 		}
 		xs := make([]*curve.ExpandedEdwardsPoint, 0, len(sp))
-		for _, p := range sp {
-			xs = append(xs, curve.NewExpandedEdwardsPoint(p))
+		for i, p := range sp {
+			xs = append(xs, cvExpanded(p, a[4+i%len(a[4:])]))
 		}
 		return cvBoth(cvRecv().ExpandedMultiscalarMulVartime(ss, xs, ds, dp), nil)
 	}
